@@ -37,9 +37,14 @@ Types ==
     [] Fam = "wrap1" -> Wrap(ELeaf)
     [] Fam = "wrap2" -> Wrap(Wrap(ELeafR))
     [] Fam = "st1" -> {St(<<f>>) : f \in UNION {TagForms("A", t) : t \in ELeaf \cup Wrap(ELeafR)}}
+    [] Fam = "st1l" -> {St(<<f>>) : f \in UNION {TagForms("A", t) : t \in ELeaf}}
+    [] Fam = "st1w" -> {St(<<f>>) : f \in UNION {TagForms("A", t) : t \in Wrap(ELeafR)}}
     [] Fam = "st2" -> {St(<<f, g>>) : f \in UNION {TagForms("A", t) : t \in {K("f64"), K("str"), K("mjp"), [k |-> "slice", e |-> K("mjp")]}},
                                       g \in UNION {{Fld("none", "B", "B", t), Fld("ren", "B", "A", t), Fld("omit", "B", "B", t)} :
                                                    t \in {K("i8"), K("iface"), [k |-> "ptr", e |-> K("mtp")], [k |-> "map", key |-> "txt", e |-> K("int")]}}}
+    \* the sorted-key iteration at scale: insertion sort up to 11 keys, radix quicksort beyond, heapsort when the depth budget is used up
+    \* by shared prefixes
+    [] Fam = "bigmap" -> {[k |-> "map", key |-> kk, e |-> K("int")] : kk \in {"str", "i64", "txt"}} \cup {St(<<Fld("none", "A", "A", [k |-> "map", key |-> "str", e |-> K("int")])>>)}
     [] Fam = "emb" -> {St(<<Fld("emb", "E", "E", e), g>>) : e \in {EmbA, EmbM, [k |-> "ptr", e |-> EmbA], [k |-> "ptr", e |-> EmbM]},
                                                        g \in {Fld("none", "A", "A", K("str")), Fld("none", "C", "C", K("int")), Fld("ren", "B", "b", K("mtp"))}}
 
@@ -49,9 +54,11 @@ MyTypes == {TypeSeq[i] : i \in {x \in 1..Len(TypeSeq) : x % NParts = Part}}
 \* ---- value classes per type ----
 Num(k, c) == [g |-> "n", as |-> k, c |-> c]
 Str(c) == [g |-> "s", c |-> c]
+BigMaps == {[g |-> "bm", n |-> n, p |-> p] : n \in {2, 11, 12, 13, 16, 17, 31, 32, 33, 64, 100, 257}, p \in {0, 1, 3, 8, 10, 12}}
 RECURSIVE Vals(_, _)
 Vals(t, depth) ==
-  CASE t.k = "bool" -> {[g |-> "b", b |-> TRUE], [g |-> "b", b |-> FALSE]}
+  CASE Fam = "bigmap" /\ t.k = "map" -> BigMaps
+    [] t.k = "bool" -> {[g |-> "b", b |-> TRUE], [g |-> "b", b |-> FALSE]}
     [] t.k \in IntKinds -> {Num(t.k, c) : c \in {"z", "p7", "n3"} \cup (IF Bits(t.k) >= 16 /\ depth = 0 THEN {"n200", "p300"} ELSE {}) \cup (IF Bits(t.k) = 64 /\ depth = 0 THEN {"n2_63", "p5e9"} ELSE {})}
     [] t.k \in UintKinds -> {Num(t.k, c) : c \in {"z", "p7"} \cup (IF depth = 0 THEN {"p200"} ELSE {}) \cup (IF Bits(t.k) = 64 /\ depth = 0 THEN {"p2_63"} ELSE {})}
     [] t.k \in FloatKinds -> {Num(t.k, c) : c \in {"z", "nz", "f1_5"} \cup (IF depth = 0 THEN {"p7", "f1e21", "f1e20", "f1em6", "f1em7", "nan", "inf", "ninf"} ELSE {"nan"})}
@@ -114,12 +121,12 @@ Init == /\ T \in MyTypes
         /\ top \in {"val", "ptr"}
         /\ o \in OptsFor
         /\ E = Marshal(T, V, top, o)
-        /\ RV = IF Plain(T) /\ ~o.novalid THEN Decoded(T, E) ELSE [hard |-> FALSE, soft |-> FALSE, v |-> [g |-> "none"]]
+        /\ RV = IF Plain(T) /\ ~o.novalid /\ Fam # "bigmap" THEN Decoded(T, E) ELSE [hard |-> FALSE, soft |-> FALSE, v |-> [g |-> "none"]]
 Next == UNCHANGED vars
 Spec == Init /\ [][Next]_vars
 
 \* C04 on the specification: a successful Marshal of a plain type decodes back to the original
-RoundTrip == (Plain(T) /\ ~E.err /\ ~o.novalid) => (~RV.hard /\ ~RV.soft /\ Same(T, RV.v, V))
+RoundTrip == (Plain(T) /\ ~E.err /\ ~o.novalid /\ Fam # "bigmap") => (~RV.hard /\ ~RV.soft /\ Same(T, RV.v, V))
 \* unrepresentable values are errors, never text
 Unrepresentable == (T.k \in FloatKinds /\ FloatBad(V.c) /\ ~o.nanull) => E.err
 =============================================================================
